@@ -465,6 +465,8 @@ run_setting(const World& w, const MSet& ms, vh::Rng& rng, bool thorough, int wid
         op += buf;
         if (e.first[1] < w.ymin || e.first[1] > w.ymax || e.first[2] < w.xmin || e.first[2] > w.xmax)
           ++row_out_of_grid; // the projectors index y and x unchecked
+        if (e.first[0] < w.zmin || e.first[0] > w.zmax)
+          g_counts["row_elements_outside_the_image_in_z"]++; // these exercise the z guard of forward_project/back_project
       }
     emit(op, std::to_string(i) + " " + std::to_string(r.size()));
     // the rows the projectors use must not depend on the symmetry settings (overlap with C03; library tolerance 2e-3)
@@ -1347,9 +1349,20 @@ run_on_the_fly(const World& w, vh::Rng& rng, bool thorough)
           continue;
         }
       const std::vector<float> a1 = w.read(A1), a2 = w.read(A2);
+      // scale for the tolerance floor: the largest bin of the projection of |x| (an upper bound of the magnitude of the
+      // sums both projectors accumulate in float; the largest |bin| itself can be small by cancellation)
       double gmax = 0;
-      for (float v : a2)
-        gmax = std::max(gmax, (double)std::fabs(v));
+      {
+        std::vector<float> xa(x);
+        for (auto& v : xa)
+          v = std::fabs(v);
+        shared_ptr<DiscretisedDensity<3, float>> XA = w.make_img(xa);
+        ProjDataInMemory A3(w.exam, w.pdi);
+        A3.fill(0.F);
+        fm.forward_project(A3, *XA, 0, 1, true);
+        for (float v : w.read(A3))
+          gmax = std::max(gmax, (double)std::fabs(v));
+      }
       long bad = 0, bad_class2 = 0;
       double worst = 0;
       // class of the known candidate below: segment 0 of span-1 data, tangential position 0, last axial position of the
@@ -1542,9 +1555,13 @@ main(int argc, char** argv)
   // worlds: fixed mix of kinds (0 cyl, 1 cyl TOF, 2 blocks, 3 blocks TOF)
   std::vector<int> kinds;
   if (thorough)
-    kinds = { 0, 0, 0, 0, 0, 0, 1, 1, 1, 2, 2, 3, 3, 0, 0, 1 };
+    {
+      for (int rep = 0; rep < 5; ++rep)
+        for (int k : { 0, 0, 0, 1, 1, 2, 3, 0 })
+          kinds.push_back(k);
+    }
   else
-    kinds = { 0, 0, 0, 1, 2, 3 };
+    kinds = { 0, 0, 0, 1, 1, 2, 3, 0 };
   int wid = 0;
   for (int kind : kinds)
     {
@@ -1598,7 +1615,7 @@ main(int argc, char** argv)
       run_row_level(w, rng, thorough);
       run_on_the_fly(w, rng, thorough);
     }
-  for (int k = 0; k < (thorough ? 12 : 4); ++k)
+  for (int k = 0; k < (thorough ? 36 : 6); ++k)
     {
       World w;
       try
